@@ -14,9 +14,9 @@ Local Open Scope Z_scope.
    Classes with several opcode constants per row (ADD/SUB, CMP/CMN, TST, logical, shifts, MIN/MAX, LDR/STR, LDP/STP, LDUR-like, FP scalar/
    vector/by-element, integer by-element, SIMD shifts, SIMD load/store) contribute one entry per variant; the variant is compared with the
    database rows whose operand syntaxes select it (row_filter in tools/c02_tables.py mirrors the case split of the encoder).
-   PARTIAL: enc_table_count entries for 639 of the 774 instructions; not covered: instructions without a supported database row and the
-   classes MOV/MRS/MSR/SYS pseudo encoders (constants live in the code, not in tables), FMOV/FCVT/FCM*/DOT/FMLAL/DUP/INS/UMOV/MOVI/TBL/LDn
-   multi-table classes (listed in the evidence as classes_not_covered / not dumped). *)
+   PARTIAL: enc_table_count entries (the evidence gives the count of instructions covered of the 774); not covered: instructions without a
+   supported database row, PRFM unscaled, and MOVI/MVNI, FCMLA, SIMD MOV (listed in the evidence). The classes whose opcodes are literals in
+   the encoder's source are covered by C02_literal_opcodes_agree_db below. *)
 Theorem C02_tables_agree_db_partial : forall id w var rids rid, In (id, w, var, rids) enc_table -> In rid rids ->
   exists r, In r rows /\ r_id r = rid /\ tword_agrees (r_tmpl r) w var = true.
 Proof.
@@ -28,3 +28,23 @@ Proof.
   apply find_some in F. destruct F as [Fi Fe]. apply Z.eqb_eq in Fe. exists r. auto.
 Qed.
 Print Assumptions C02_tables_agree_db_partial.
+
+(* Classes without table constants (REV, MOV, AT/DC/IC/TLBI, SYS, MRS, MSR, FCSEL, FCVT, FMOV, DUP, INS): the binary literals passed to
+   opcode.reset() inside the class's `case` of a64assembler.cpp are extracted from the source text on every run (tools/c02_tables.py
+   literals()); every supported database row of such an instruction agrees, on its fixed bits outside the bits the case ORs in, with at
+   least one of the literals of its case. *)
+Theorem C02_literal_opcodes_agree_db : forall id ws var rids rid, In (id, ws, var, rids) lit_table -> In rid rids ->
+  exists r w, In r rows /\ r_id r = rid /\ In w ws /\ tword_agrees (r_tmpl r) w var = true.
+Proof.
+  intros id ws var rids rid Hin Hrid.
+  pose proof (proj1 (forallb_forall (lit_entry_ok rows) lit_table) lit_table_agrees _ Hin) as H.
+  unfold lit_entry_ok in H.
+  pose proof (proj1 (forallb_forall _ rids) H rid Hrid) as H1. cbv beta in H1.
+  destruct (find (fun r => r_id r =? rid) rows) as [r|] eqn:F; [|discriminate H1].
+  apply find_some in F. destruct F as [Fi Fe]. apply Z.eqb_eq in Fe.
+  apply existsb_exists in H1. destruct H1 as [w [Hw Ha]]. exists r, w. auto.
+Qed.
+Print Assumptions C02_literal_opcodes_agree_db.
+(* non-vacuity: both tables are non-empty *)
+Example tables_nonempty : (0 < length enc_table)%nat /\ (0 < length lit_table)%nat.
+Proof. vm_compute. split; apply le_n_S, Nat.le_0_l || (repeat constructor). Qed.
